@@ -344,6 +344,24 @@ Theorem C06_selSUS_total : forall w inds k u rest,
 Proof. exact selSUS_total. Qed.
 Print Assumptions C06_selSUS_total.
 
+(* a lexicase log: per selection a permutation of the cases and an index below the number of
+   survivors; a DCD log: two samples of the whole population and enough coin draws *)
+Theorem C06_lexicase_total : forall step w inds (rounds : list (list nat * nat)) rest,
+  Forall (lex_round_ok step w inds) rounds ->
+  exists out, lexicase_gen step w inds (length rounds)
+                (concat (map (lex_round_draws step w inds) rounds) ++ rest) = Ok out rest.
+Proof. exact lexicase_gen_total. Qed.
+Print Assumptions C06_lexicase_total.
+
+Theorem C06_selTournamentDCD_total : forall inds k idx1 idx2 ds,
+  (k <= length inds)%nat -> (k mod 4 = 0)%nat ->
+  sample_ok (length inds) idx1 -> sample_ok (length inds) idx2 ->
+  all_random ds -> (k <= length ds)%nat ->
+  exists out rest,
+    selTournamentDCD inds k (DSample (length inds) idx1 :: DSample (length inds) idx2 :: ds) = Ok out rest.
+Proof. exact selTournamentDCD_total. Qed.
+Print Assumptions C06_selTournamentDCD_total.
+
 (* ------------------------------------------------------------------ non-vacuity *)
 (* concrete populations and draw logs on which every operator answers Ok (so the hypotheses
    `... = Ok out rest` above are satisfiable), evaluated by the kernel *)
